@@ -101,3 +101,26 @@ Theorem C01_grading : forall sel ops d s d', string_fn ops d = Some (s, d') ->
   Z.of_nat (nocc_in sel 0 d') = (Z.of_nat (nocc_in sel 0 d) + string_shift sel ops)%Z.
 Proof. exact string_grading. Qed.
 Print Assumptions C01_grading.
+
+(* --- the Knowles–Handy folding the dense kernels rely on (h1 -= h2[:,k,k,:], h2 -> -h2 with
+   the middle axes exchanged):  i† j† k l  =  delta_jk i† l  -  (i† k)(j† l)  as operators, for
+   every spin structure, every ring, every vector, every determinant length *)
+Theorem C01_kh_folding :
+  forall (R : Type) (rO rI : R) (radd rmul rsub : R -> R -> R) (ropp : R -> R),
+  ring_theory rO rI radd rmul rsub ropp eq ->
+  forall (i j k l n : nat) (v : vec R) (d : det), k < n -> wide R n v ->
+  coeff R rO radd (act_string R ropp [mkop i true; mkop j true; mkop k false; mkop l false] v) d =
+  radd (if Nat.eqb k j then coeff R rO radd (act_string R ropp [mkop i true; mkop l false] v) d else rO)
+       (ropp (coeff R rO radd (act_string R ropp [mkop i true; mkop k false; mkop j true; mkop l false] v) d)).
+Proof. exact kh_folding. Qed.
+Print Assumptions C01_kh_folding.
+
+Theorem C01_kh_folded_hamiltonian :
+  forall (R : Type) (rO rI : R) (radd rmul rsub : R -> R -> R) (ropp : R -> R),
+  ring_theory rO rI radd rmul rsub ropp eq ->
+  forall (ts : list (R * (nat * nat * nat * nat))) (n : nat) (v : vec R) (d : det),
+  (forall c i j k l, In (c, (i, j, k, l)) ts -> k < n) -> wide R n v ->
+  coeff R rO radd (act_poly R rmul ropp (two_body_poly R ts) v) d =
+  coeff R rO radd (act_poly R rmul ropp (kh_folded_poly R rO ropp ts) v) d.
+Proof. exact kh_folded_poly_sound. Qed.
+Print Assumptions C01_kh_folded_hamiltonian.
